@@ -6,6 +6,7 @@ package main
 
 import (
 	"fmt"
+	"os"
 	"sync"
 
 	proto4 "go.sia.tech/core/rhp/v4"
@@ -14,18 +15,22 @@ import (
 )
 
 type callLog struct {
-	mu        sync.Mutex
-	calls     []string // Coq hcall terms
-	funded    map[types.SiacoinOutputID]bool
-	fundedIDs []types.SiacoinOutputID
-	released  map[types.SiacoinOutputID]bool
-	seenTxSet bool
-	recorded  []rhp4.TransactionSet // sets handed to AddV2Contract / RenewV2Contract that were accepted
+	mu sync.Mutex
+	logData
+}
+
+type logData struct {
+	calls       []string // Coq hcall terms
+	funded      map[types.SiacoinOutputID]bool
+	fundedIDs   []types.SiacoinOutputID
+	released    map[types.SiacoinOutputID]bool
+	seenTxSet   bool
+	recorded    []rhp4.TransactionSet // sets handed to AddV2Contract / RenewV2Contract that were accepted
 	recordKinds []string
-	broadcast []rhp4.TransactionSet // sets broadcast successfully
-	poolSets  []rhp4.TransactionSet // sets the pool accepted
-	locks     int
-	unlocks   int
+	broadcast   []rhp4.TransactionSet // sets broadcast successfully
+	poolSets    []rhp4.TransactionSet // sets the pool accepted
+	locks       int
+	unlocks     int
 	// order facts for the monitors
 	poolOKBeforeRecord bool
 	recordBeforeBcast  bool
@@ -34,16 +39,17 @@ type callLog struct {
 func (l *callLog) reset() {
 	l.mu.Lock()
 	defer l.mu.Unlock()
-	*l = callLog{funded: map[types.SiacoinOutputID]bool{}, released: map[types.SiacoinOutputID]bool{}}
+	l.logData = logData{funded: map[types.SiacoinOutputID]bool{}, released: map[types.SiacoinOutputID]bool{}}
 }
 
 func (l *callLog) add(s string) { l.calls = append(l.calls, s) }
 
-func (l *callLog) snapshot() callLog {
+func (l *callLog) snapshot() logData {
 	l.mu.Lock()
 	defer l.mu.Unlock()
-	c := *l
+	c := l.logData
 	c.calls = append([]string(nil), l.calls...)
+	c.fundedIDs = append([]types.SiacoinOutputID(nil), l.fundedIDs...)
 	return c
 }
 
@@ -131,6 +137,9 @@ func (c *recChain) V2TransactionSet(basis types.ChainIndex, txn types.V2Transact
 	defer c.log.mu.Unlock()
 	c.log.seenTxSet = true
 	c.log.add("CTxSet " + coqBool(err == nil))
+	if err != nil && os.Getenv("C16_DEBUG") != "" {
+		fmt.Fprintf(os.Stderr, "   V2TransactionSet(%v): %v\n", basis, err)
+	}
 	return b, set, err
 }
 
